@@ -146,6 +146,17 @@ func c07Render(files []c07File, page string, data [][2]string) Obs {
 			delete(m, "prev.vuego")
 		}
 		switch {
+		case c07Ctor == 4:
+			// one loaded Template value rendered twice (with no data: Fill(nil)): the second render follows the same chain
+			var t vuego.Template
+			if len(d) == 0 {
+				t = base.Load(page).Fill(nil)
+			} else {
+				t = base.Load(page).Fill(d)
+			}
+			var sink bytes.Buffer
+			_ = t.Render(context.Background(), &sink)
+			err = t.Render(context.Background(), &buf)
 		case len(d) == 0 && c07Prev%3 == 1:
 			err = base.Load(page).Render(context.Background(), &buf) // no data: no Fill at all
 		case c07LoadFirst:
@@ -270,7 +281,7 @@ func runC07(r *Run) {
 	emit := func(c cfg) {
 		c07LoadFirst = r.Rng.Intn(3) == 0 // Load(page).Fill(data): the page's front-matter still wins over the filled data
 		r.Count(fmt.Sprintf("order:load-first=%v", c07LoadFirst))
-		c07Ctor = r.Rng.Intn(6) // 0,4: NewFS; 5: rendered a page while no default layout existed, which exists now; 3 with an odd c07Prev: has rendered a page through a default layout that is gone now; 1: New(WithFS); 2: built before the layouts existed; 3: built while a default layout existed
+		c07Ctor = r.Rng.Intn(6) // 0: NewFS; 4: NewFS, and the loaded template is rendered twice (the second render is the one compared); 5: rendered a page while no default layout existed, which exists now; 3 with an odd c07Prev: has rendered a page through a default layout that is gone now; 1: New(WithFS); 2: built before the layouts existed; 3: built while a default layout existed
 		r.Count(fmt.Sprintf("constructor:%d", c07Ctor))
 		c07FenceStyle = 0
 		if r.Rng.Intn(3) == 0 {
